@@ -94,6 +94,14 @@ def corpus_histories(keys, which):
             H.append([att_line("client1", n0, 5, t, 0), att_line("client1", k0, 5, t, 1), "export"])
             # surround around a huge source
             H.append([att_line("client1", n0, min(t, TWO64 - 2), TWO64 - 1, 0), att_line("client1", n0, 3, 7, 1), "export"])
+        for t in big[1:]:
+            # a key's FIRST attestation carries epochs >= 2^63 (whatever is done with it, nothing conflicting may follow):
+            # both epochs huge then the same target with another root; ordinary source / huge target then one it surrounds
+            H.append([att_line("client1", n0, t - 1, t, 0), att_line("client1", k0, t - 1, t, 1), att_line("client1", n0, t - 1, t, 2), "export"])
+            H.append([att_line("client1", n1, 5, t, 0), att_line("client1", k1, 6, 7, 1), "export"])
+            H.append(["atts %s - - %s" % (hx("client1"), ";".join([att_item(n0, t - 2, t, 0), att_item(n1, t - 2, t, 0)])),
+                      "restart",
+                      "atts %s - - %s" % (hx("client1"), ";".join([att_item(k0, t - 1, t - 1 if t - 1 > TWO63 else t, 1), att_item(k1, t - 2, t, 1)])), "export"])
         H.append([att_line("client1", n0, 0, 0, 0), att_line("client1", k0, 0, 0, 1), "export"])      # genesis double vote
         H.append([att_line("client1", n0, 2, 9, 0), "restart", att_line("client1", k0, 3, 8, 1), att_line("client1", n0, 1, 10, 2)])  # surrounded / surrounding
         H.append(["atts %s - - %s" % (hx("client1"), ";".join([att_item(n0, 1, 4, 0), att_item(k0, 1, 4, 1)])), "export"])  # same key twice in a batch
@@ -109,6 +117,44 @@ def corpus_histories(keys, which):
         H.append([prop_line("client1", n0, 10, 0), "restart", prop_line("client1", k0, 9, 1), prop_line("client1", n0, 11, 1), "export"])
         H.append([prop_line("client1", n0, 5, 0, faults="S"), prop_line("client1", n0, 5, 1), "export"])
     return [{"cfg": cfg, "ops": ops, "accts": accts, "opts": {}} for ops in H]
+
+
+def header_root(slot, proposer, parent, state, body):
+    """SSZ hash tree root of a BeaconBlockHeader (five fields, eight leaves); cross-checked against the Lean model's
+    `proot` wherever it is used"""
+    import hashlib
+    leaves = [slot.to_bytes(8, "little") + bytes(24), proposer.to_bytes(8, "little") + bytes(24), parent, state, body] + [bytes(32)] * 3
+    while len(leaves) > 1:
+        leaves = [hashlib.sha256(leaves[i] + leaves[i + 1]).digest() for i in range(0, len(leaves), 2)]
+    return leaves[0]
+
+
+def generic_cross_histories(keys, rng):
+    """C02: a proposal is signed; a second header for the same slot is refused on the proposal endpoint; then a Multisign
+    request carries that second header's root under the proposer domain in an entry that FAILS its pre-check (unknown
+    account / account the client may not use), in front of / behind a harmless entry for the victim account.  Whatever the
+    reply, no signature by the victim's key may verify over the second header's signing root (judge_cross)."""
+    accts, perms, admins = hist.std_config(keys, nacct=5)
+    cfg = hist.config_lines(accts, perms, admins)
+    H = []
+    dom_p = (hist.DOM_PROP + bytes(28)).hex()
+    dom_r = (hist.DOM_RANDAO + bytes(28)).hex()
+    harmless = (bytes([0x5A]) * 32).hex()
+    for vi, slot in ((0, 10), (1, 12345), (2, TWO63 + 5)):
+        v = accts[vi]
+        nv, kv = "n:" + hx(v.path), "k:" + v.pk.hex()
+        r1 = bytes([0xA1]) * 32
+        h2 = header_root(slot, 1, r1, r1, r1).hex()
+        for bad in ("n:" + hx("Wallet 1/No such account"), "n:" + hx("Nowhere/Account 1"), "k:" + (bytes([0xC0]) + bytes(47)).hex()):
+            for order in (0, 1):
+                ent = ["%s,%s,%s" % (bad, dom_p, h2), "%s,%s,%s" % (nv if order == 0 else kv, dom_r, harmless)]
+                if order == 1:
+                    ent = [ent[1], ent[0], "%s,%s,%s" % (nv, dom_r, harmless)]
+                H.append({"cfg": cfg, "accts": accts, "opts": {}, "header2": (slot, h2, dom_p), "ops": [
+                    prop_line("client1", nv, slot, 0), prop_line("client1", kv, slot, 1),
+                    "msign %s - - %s" % (hx("client1"), ";".join(ent)),
+                    "sign %s - %s %s,%s -" % (hx("client1"), nv, dom_p, h2), "export"]})
+    return H
 
 
 def tier_sizes(tier, quick, thorough):
@@ -467,9 +513,21 @@ def c02(rep, tier, seed, wd, replay):
         ks = [r[1] for r in rel if r[0] == "prop"]
         return len(ks) != len(set(ks)) or any(op.startswith("prop") and "D" in hist.states_of(l)
                                               for op, l in zip(h["ops"], h["impl"]))
+    def judge_header2(rep_, dh_, wd_, all_h):
+        # (the Python header root used by generic_cross_histories is what the Lean model computes)
+        from common import run_model
+        hs2 = [h for h in all_h if "header2" in h]
+        if hs2:
+            h = hs2[0]
+            slot, h2, dom_p = h["header2"]
+            got = run_model(["proot %s" % h["ops"][1].split()[4], "sroot %s %s" % (h2, dom_p)])
+            if len(got) != 2 or got[0].strip() != got[1].strip() or got[0].strip() == "-":
+                raise Broken("harness:header-root", "the harness's header root differs from the model's: %r" % (got,))
+        return judge_cross(rep_, dh_, wd_, all_h)
     run_hist_property(rep, tier, seed, wd, "C02", ("prop", "export", "restart", "twinprop"), opts, sizes,
-                      judges=[judge_slash("C02"), judge_twin("C02"), judge_prior("C02")], nontrivial=nontriv,
-                      extra_hist=lambda k_, r_: twin_histories("prop")(k_, r_) + legacy_histories("prop", build_harness(wd))(k_, r_))
+                      judges=[judge_slash("C02"), judge_twin("C02"), judge_prior("C02"), judge_header2], nontrivial=nontriv,
+                      extra_hist=lambda k_, r_: twin_histories("prop")(k_, r_) + legacy_histories("prop", build_harness(wd))(k_, r_)
+                      + generic_cross_histories(k_, r_))
     # start-up on stores carried over from an earlier release (see startup_stage): what the first requests after a start record
     # must not be undone by anything else the service does while it starts
     if REPLAY is None or any(o.startswith("pause") for o in REPLAY.get("ops", [])):
@@ -481,6 +539,62 @@ def c02(rep, tier, seed, wd, replay):
         dh = build_harness(wd)
         run_conc(rep, dh, wd, hist.interop_keys(dh), Rng(seed * 77 + 2), 3 if tier != "thorough" else 20, 0, 250 if tier != "thorough" else 600, [None, 2],
                  want_lin=False, n_cross=2 if tier != "thorough" else 12, cross_kind="prop", steer_kinds=["deadline-rollback-prop"])
+
+
+def judge_cross(rep, dh, wd, all_h):
+    """what the released generic signatures actually sign: none may verify over the signing root of its data under
+    a beacon-attester / beacon-proposer domain (the type prefixes with the request's own suffix and with the suffix or
+    whole domain of every other entry of the same request), whatever the reply says the domain was"""
+    from common import sh, run_model
+    cand = []
+    for hi, h in enumerate(all_h):
+        for (k, key, data, sig, i, j, st) in hist.released(h["ops"], h["impl"], h["accts"]):
+            if k != "sign" or key is None:
+                continue
+            f = h["ops"][i].split()
+            items = f[4].split(";") if f[0] == "msign" else ["x," + f[4]]
+            own = data.split(",")
+            if len(own) < 2:
+                continue
+            d_hex = "" if own[0] in ("-", ".") else own[0]
+            r_hex = "" if own[1] in ("-", ".") else own[1]
+            # whatever the field lengths: if data||domain is 64 bytes, the bytes signed may be the signing root of
+            # (first 32 bytes, last 32 bytes) — a slashable message if those last 32 bytes are an attester/proposer domain
+            cat = r_hex + d_hex
+            if len(cat) == 128 and len(r_hex) != 64 and bytes.fromhex(cat[64:72]) in (DOM_ATT, DOM_PROP):
+                cand.append((hi, i, j, key, sig, cat[:64], cat[64:]))
+            if len(own[1]) != 64:
+                continue
+            doms = set()
+            for it in items:
+                p_ = it.split(",")
+                if len(p_) >= 2 and len(p_[1]) == 64:
+                    doms.add(p_[1][8:])
+            for suf in doms:
+                for t in (DOM_ATT, DOM_PROP):
+                    cand.append((hi, i, j, key, sig, own[1], t.hex() + suf))
+            # … and over the signing root of ANOTHER entry of the same request (its data under its domain), when that
+            # entry's domain is a beacon-attester / beacon-proposer one: verdict and data of different entries must not mix
+            for e_, it in enumerate(items):
+                p_ = it.split(",")
+                if f[0] == "msign" and e_ != j and len(p_) >= 3 and len(p_[1]) == 64 and len(p_[2]) == 64 \
+                        and bytes.fromhex(p_[1][:8]) in (DOM_ATT, DOM_PROP):
+                    cand.append((hi, i, j, key, sig, p_[2], p_[1]))
+    if not cand:
+        rep.cov["generic_signatures_checked_against_slashable_domains"] = 0
+        return False
+    roots = run_model(["sroot %s %s" % (c[5], c[6]) for c in cand])
+    rc, out, err = sh([dh, "sigcheck"], input="\n".join("%s %s %s" % (c[3].hex(), r.strip(), c[4]) for c, r in zip(cand, roots)) + "\n")
+    rep.cov["generic_signatures_checked_against_slashable_domains"] = len(cand)
+    for c, o in zip(cand, out.splitlines()):
+        if o.strip() == "ok":
+            hi, i, j = c[0], c[1], c[2]
+            rep.violation("generic-signature-under-slashable-domain",
+                          "a generic signing endpoint returned a signature that verifies over the data's signing root under a beacon-attester/proposer domain",
+                          {"config": all_h[hi]["cfg"], "ops": all_h[hi]["ops"][:i + 1], "position": j, "domain": c[6]})
+            return True
+    return False
+
 
 
 def c05(rep, tier, seed, wd, replay):
@@ -511,53 +625,6 @@ def c05(rep, tier, seed, wd, replay):
             rep.violation("domain-" + verdict, "a signature was released that the Lean predicate forbids: " + verdict,
                           {"config": all_h[hi]["cfg"], "ops": all_h[hi]["ops"][:i + 1], "position": j})
             return True
-        return False
-
-    def judge_cross(rep, dh, wd, all_h):
-        """what the released generic signatures actually sign: none may verify over the signing root of its data under
-        a beacon-attester / beacon-proposer domain (the type prefixes with the request's own suffix and with the suffix or
-        whole domain of every other entry of the same request), whatever the reply says the domain was"""
-        from common import sh, run_model
-        cand = []
-        for hi, h in enumerate(all_h):
-            for (k, key, data, sig, i, j, st) in hist.released(h["ops"], h["impl"], h["accts"]):
-                if k != "sign" or key is None:
-                    continue
-                f = h["ops"][i].split()
-                items = f[4].split(";") if f[0] == "msign" else ["x," + f[4]]
-                own = data.split(",")
-                if len(own) < 2:
-                    continue
-                d_hex = "" if own[0] in ("-", ".") else own[0]
-                r_hex = "" if own[1] in ("-", ".") else own[1]
-                # whatever the field lengths: if data||domain is 64 bytes, the bytes signed may be the signing root of
-                # (first 32 bytes, last 32 bytes) — a slashable message if those last 32 bytes are an attester/proposer domain
-                cat = r_hex + d_hex
-                if len(cat) == 128 and len(r_hex) != 64 and bytes.fromhex(cat[64:72]) in (DOM_ATT, DOM_PROP):
-                    cand.append((hi, i, j, key, sig, cat[:64], cat[64:]))
-                if len(own[1]) != 64:
-                    continue
-                doms = set()
-                for it in items:
-                    p_ = it.split(",")
-                    if len(p_) >= 2 and len(p_[1]) == 64:
-                        doms.add(p_[1][8:])
-                for suf in doms:
-                    for t in (DOM_ATT, DOM_PROP):
-                        cand.append((hi, i, j, key, sig, own[1], t.hex() + suf))
-        if not cand:
-            rep.cov["generic_signatures_checked_against_slashable_domains"] = 0
-            return False
-        roots = run_model(["sroot %s %s" % (c[5], c[6]) for c in cand])
-        rc, out, err = sh([dh, "sigcheck"], input="\n".join("%s %s %s" % (c[3].hex(), r.strip(), c[4]) for c, r in zip(cand, roots)) + "\n")
-        rep.cov["generic_signatures_checked_against_slashable_domains"] = len(cand)
-        for c, o in zip(cand, out.splitlines()):
-            if o.strip() == "ok":
-                hi, i, j = c[0], c[1], c[2]
-                rep.violation("generic-signature-under-slashable-domain",
-                              "a generic signing endpoint returned a signature that verifies over the data's signing root under a beacon-attester/proposer domain",
-                              {"config": all_h[hi]["cfg"], "ops": all_h[hi]["ops"][:i + 1], "position": j, "domain": c[6]})
-                return True
         return False
 
     def nontriv(h):
